@@ -33,7 +33,7 @@ RULE = ("source repositories from C09's recipe options (tags, stashes, foreign k
         "concurrent pushes against one head; non-trivial = universe of at least 20 chunks; distinct by recipe")
 ASSUMPTIONS = ["file:// remotes in temp directories, single process", "in-progress merge/rebase state is local and is not transferred"]
 REQUIRED_TAGS = ["race", "race-one-winner", "nonff-refused", "clone-equal", "pull-equal", "multi-level",
-                 "interrupt", "int-push-data-no-ref", "int-push-ref-moved", "int-fetch", "int-pull", "int-clone", "int-all-fired"]
+                 "adaptive-out-of-band-small-value", "interrupt", "int-push-data-no-ref", "int-push-ref-moved", "int-fetch", "int-pull", "int-clone", "int-all-fired"]
 HARNESS_TIMEOUT = 2400
 COQ_SHARD = 8
 
@@ -45,6 +45,7 @@ def gen_cases(rng, tier):
         c = {"scn": "plain", "rows": [3, 30, 400, 5][j % 4] if j < 4 else rng.choice([3, 5, 30, 400]), "race": j % 2 == 0}
         for k in ("tag", "stash", "fk", "idx", "blob"):
             c[k] = rng.random() < 0.5
+        c["wide"] = (j % 2 == 1) or rng.random() < 0.3    # wide rows: short out-of-band adaptive values must be transferred
         cases.append(c)
     # interrupted transfers on the real code: every injected failure point of push (sink side: HasMany, WriteTableFile
     # before/mid/after, AddTableFilesToManifest before/after, Commit before/after), fetch and pull (source side: HasMany,
@@ -53,6 +54,7 @@ def gen_cases(rng, tier):
         c = {"scn": "plain", "rows": rng.choice([3, 5, 30]), "interrupt": True}
         for k in ("tag", "fk", "idx", "blob"):
             c[k] = rng.random() < 0.5
+        c["wide"] = j == 0
         cases.append(c)
     return cases
 
@@ -79,6 +81,8 @@ def classify(case, out):
     if o is None or out.get("panic") or out.get("err"):
         return ["panic-or-error"]
     t = []
+    if case.get("wide"):
+        t.append("adaptive-out-of-band-small-value")
     if case.get("race"):
         t.append("race")
         if o.get("race_winners") == 1:
